@@ -439,8 +439,94 @@ def check_history(ctx):
                                   f'after acknowledge_until({ack1}); query; acknowledge_until({ack2}); snooze_until({sn}) the object answers {o}, a fresh object in the same configuration answers {f}')
 
 
+def check_history_local_tz(ctx):
+    """floating and date triggers: the local time zone may be set, changed and removed between queries; the
+    answers are those of a fresh object with the final setting, and the documented missing-time-zone error comes
+    and goes with the setting"""
+    from datetime import date as d_, datetime as dt, timezone as tzz
+    from zoneinfo import ZoneInfo
+    from icalendar import Alarm, Event
+    from icalendar.alarms import Alarms
+    from icalendar.alarms import LocalTimezoneMissing
+    zones = [None, ZoneInfo('Europe/Berlin'), ZoneInfo('Pacific/Honolulu')]
+    for start in (dt(2024, 3, 5, 10), d_(2024, 3, 5)):
+        ev = Event()
+        ev.add('uid', 'l')
+        ev.start = start
+        a = Alarm()
+        a.TRIGGER = timedelta(minutes=-30)
+        ev.add_component(a)
+        ack = dt(2024, 3, 5, 3, tzinfo=tzz.utc)
+
+        def observe(al):
+            try:
+                return ('ok', [t.trigger for t in al.times], [t.trigger for t in al.active])
+            except LocalTimezoneMissing:
+                return ('local-timezone-missing',)
+        for z1 in zones:
+            for z2 in zones:
+                ctx.evaluated(('history-ltz', str(start), str(z1), str(z2)))
+                old = Alarms(ev)
+                old.acknowledge_until(ack)
+                old.set_local_timezone(z1)
+                first = observe(old)                  # a query in between
+                old.set_local_timezone(z2)
+                fresh = Alarms(ev)
+                fresh.acknowledge_until(ack)
+                fresh.set_local_timezone(z2)
+                inp = {'start': str(start), 'tz1': str(z1), 'tz2': str(z2)}
+                try:
+                    o, f = observe(old), observe(fresh)
+                except Exception as e:  # noqa: BLE001
+                    ctx.violation('history-local-timezone', inp, f'{type(e).__name__}: {e}')
+                    continue
+                if o != f:
+                    ctx.violation('history-local-timezone', inp,
+                                  f'set_local_timezone({z1}); query -> {first}; set_local_timezone({z2}): the object answers {o}, a fresh object with that zone answers {f}')
+
+
+def check_held_alarm_time(ctx):
+    """an AlarmTime answers from the alarm and the acknowledgement it was given: one kept from an earlier query
+    and one built by hand agree with a newly computed one for the same alarm state"""
+    from datetime import datetime as dt, timezone as tzz
+    from icalendar import Alarm, Event
+    from icalendar.alarms import Alarms, AlarmTime
+    U = tzz.utc
+    trig = dt(2024, 3, 5, 9, 30, tzinfo=U)
+    for own in (None, dt(2024, 3, 5, 9, tzinfo=U), dt(2024, 3, 5, 10, tzinfo=U)):
+        for comp_ack in (None, dt(2024, 3, 5, 8, tzinfo=U), dt(2024, 3, 5, 11, tzinfo=U)):
+            ctx.evaluated(('held', str(own), str(comp_ack)))
+            al = Alarm()
+            al.TRIGGER = trig
+            if own is not None:
+                al.ACKNOWLEDGED = own
+            t = AlarmTime(al, trig, comp_ack)
+            cands = [x for x in (own, comp_ack) if x is not None]
+            want_ack = max(cands) if cands else None
+            want_active = want_ack is None or trig > want_ack
+            if t.acknowledged != want_ack or t.is_active() != want_active:
+                ctx.violation('alarm-time-direct', {'own': str(own), 'component': str(comp_ack)},
+                              f'AlarmTime(alarm ACKNOWLEDGED={own}, trigger {trig}, acknowledged_until={comp_ack}): acknowledged={t.acknowledged}, active={t.is_active()}; expected {want_ack}, {want_active}')
+            # kept from a query, then the alarm is dismissed
+            ev = Event()
+            ev.start = dt(2024, 3, 5, 10, tzinfo=U)
+            a2 = Alarm()
+            a2.TRIGGER = timedelta(minutes=-30)
+            ev.add_component(a2)
+            held = Alarms(ev).times[0]
+            before = held.is_active()
+            a2.ACKNOWLEDGED = dt(2024, 3, 5, 9, 45, tzinfo=U)
+            again = Alarms(ev).times[0]
+            if (held.acknowledged, held.is_active()) != (again.acknowledged, again.is_active()):
+                ctx.violation('alarm-time-held', {'case': 'dismiss after query'},
+                              f'an AlarmTime kept from before alarm.ACKNOWLEDGED was set says acknowledged={held.acknowledged}, active={held.is_active()} (was {before}); computed again: {again.acknowledged}, {again.is_active()}')
+                return
+
+
 def oracle(ctx):
     check_history(ctx)
+    check_history_local_tz(ctx)
+    check_held_alarm_time(ctx)
     sh = shapes()
     light = not ctx.escalate and ctx.tier == 'quick'
     for prov in A.PROVIDERS:
